@@ -115,6 +115,7 @@ type Machine struct {
 	monitor    *recMonitor
 	hostState  map[string]interface{}
 	logMsgs    []string
+	ptrOrigin  map[*Value][]Value
 	timersCreated int
 	initSteps  int64
 }
@@ -146,6 +147,7 @@ func NewMachine(prog *Program) *Machine {
 		inited:    map[*ssa.Package]bool{},
 		implCache: map[implKey]bool{},
 		funcsSeen: map[*ssa.Function]struct{}{},
+		ptrOrigin: map[*Value][]Value{},
 		stepLimit: 1 << 40,
 	}
 	m.resetSched()
@@ -219,14 +221,20 @@ func (m *Machine) decideX(c *Term, val uint64, hasVal bool) bool {
 }
 
 func (m *Machine) assertSide(c *Term, side bool) {
-	if side {
-		m.solver.Assert(c)
-		m.pathConds = append(m.pathConds, c)
-	} else {
-		nc := m.ts.Not(c)
-		m.solver.Assert(nc)
-		m.pathConds = append(m.pathConds, nc)
+	if !side {
+		c = m.ts.Not(c)
 	}
+	m.addCond(c)
+}
+
+// addCond extends the path condition in the primary solver and mirrors it into the
+// cross-checking solver (which is only ever asked about final obligations).
+func (m *Machine) addCond(c *Term) {
+	m.solver.Assert(c)
+	if m.xsolv != nil {
+		m.xsolv.Assert(c)
+	}
+	m.pathConds = append(m.pathConds, c)
 }
 
 // revalidate obtains a model of the current path condition after a prefix whose
@@ -271,8 +279,7 @@ func (m *Machine) assume(c *Term) {
 			m.modelValid = true
 		}
 	}
-	m.solver.Assert(c)
-	m.pathConds = append(m.pathConds, c)
+	m.addCond(c)
 }
 
 // ensureModel makes sure a model of the current path condition is at hand.
@@ -308,9 +315,13 @@ func (m *Machine) check(c *Term, label, msg string) {
 	if res == Unsat && m.xsolv != nil {
 		// cross-check the final obligation with a second solver
 		r2 := m.crossCheck(neg)
-		if r2 != Unsat {
+		if r2 == Sat {
 			m.ex.noteDisagreement(label, res, r2)
 			res = Unknown
+		} else if r2 == Unknown {
+			m.ex.noteCrossUnknown()
+		} else {
+			m.ex.noteCrossConfirmed()
 		}
 	}
 	if res == Unknown && m.isolv != nil {
@@ -336,7 +347,9 @@ func (m *Machine) check(c *Term, label, msg string) {
 // crossCheck re-asks the final obligation of the second solver by replaying the
 // path condition there.
 func (m *Machine) crossCheck(neg *Term) Result {
-	return m.altCheck(m.xsolv, neg)
+	m.xsolv.noModel = true
+	r, _ := m.xsolv.Check(neg)
+	return r
 }
 
 func (m *Machine) intCheck(neg *Term) (Result, Model) {
@@ -426,6 +439,9 @@ type Explorer struct {
 	samples       []string
 	funcs         map[string]struct{}
 	solverStats   []SolverStats
+	byKind        map[string]*SolverStats
+	crossUnknown  int
+	crossConfirmed int
 	fatal         []string
 	spawned       int
 	truncated     bool
@@ -456,6 +472,16 @@ func (ex *Explorer) addUnknownObligation(label string) {
 func (ex *Explorer) noteDisagreement(label string, a, b Result) {
 	ex.mu.Lock()
 	ex.disagreements = append(ex.disagreements, fmt.Sprintf("%s: %v vs %v", label, a, b))
+	ex.mu.Unlock()
+}
+func (ex *Explorer) noteCrossUnknown() {
+	ex.mu.Lock()
+	ex.crossUnknown++
+	ex.mu.Unlock()
+}
+func (ex *Explorer) noteCrossConfirmed() {
+	ex.mu.Lock()
+	ex.crossConfirmed++
 	ex.mu.Unlock()
 }
 func (ex *Explorer) noteObligation(decided, holds bool) {
@@ -576,13 +602,17 @@ type MachinePool struct {
 	machines []*Machine
 	cross    string
 	timeout  int
+	mu       sync.Mutex
 }
 
 func (p *MachinePool) get(i int, ex *Explorer) (*Machine, string) {
+	p.mu.Lock()
 	for len(p.machines) <= i {
 		p.machines = append(p.machines, nil)
 	}
-	if m := p.machines[i]; m != nil {
+	m0 := p.machines[i]
+	p.mu.Unlock()
+	if m := m0; m != nil {
 		if m.solver.dead {
 			m.solver.Close()
 			s, err := NewSolver(primarySolver, m.ts, p.timeout)
@@ -613,7 +643,9 @@ func (p *MachinePool) get(i int, ex *Explorer) (*Machine, string) {
 	if i == 0 {
 		fmt.Fprintf(os.Stderr, "[init] packages initialised in %.2fs (%d SSA steps)\n", time.Since(t0).Seconds(), m.initSteps)
 	}
+	p.mu.Lock()
 	p.machines[i] = m
+	p.mu.Unlock()
 	return m, ""
 }
 
@@ -678,14 +710,37 @@ func (ex *Explorer) worker(id int) {
 		ex.funcs[f.String()] = struct{}{}
 	}
 	ex.solverStats = append(ex.solverStats, m.solver.Stats)
+	ex.addKind(m.solver.kind, m.solver.Stats)
 	if m.xsolv != nil {
 		ex.solverStats = append(ex.solverStats, m.xsolv.Stats)
+		ex.addKind(m.xsolv.kind+"(cross)", m.xsolv.Stats)
 	}
 	if m.isolv != nil && ex.cfg.IntSolver {
 		ex.solverStats = append(ex.solverStats, m.isolv.Stats)
+		ex.addKind(m.isolv.kind, m.isolv.Stats)
 	}
 	ex.spawned += m.goroutinesSpawned
 	ex.mu.Unlock()
+}
+
+func (ex *Explorer) addKind(kind string, st SolverStats) {
+	if ex.byKind == nil {
+		ex.byKind = map[string]*SolverStats{}
+	}
+	k := ex.byKind[kind]
+	if k == nil {
+		k = &SolverStats{}
+		ex.byKind[kind] = k
+	}
+	k.Queries += st.Queries
+	k.Sat += st.Sat
+	k.Unsat += st.Unsat
+	k.Unknown += st.Unknown
+	k.Errors += st.Errors
+	k.Time += st.Time
+	if st.MaxQuery > k.MaxQuery {
+		k.MaxQuery = st.MaxQuery
+	}
 }
 
 func (ex *Explorer) addFatal(s string) {
@@ -709,10 +764,14 @@ func (m *Machine) runPath(w WorkItem) (res *PathResult) {
 	m.steps = 0
 	m.uncaughtPanic = nil
 	m.hostState = map[string]interface{}{}
+	m.ptrOrigin = map[*Value][]Value{}
 	m.logMsgs = nil
 	m.resetSched()
 	if !m.concrete {
 		m.solver.BeginPath()
+		if m.xsolv != nil {
+			m.xsolv.BeginPath()
+		}
 		m.modelValid = true
 		if m.model == nil {
 			m.model = Model{}
@@ -728,6 +787,9 @@ func (m *Machine) runPath(w WorkItem) (res *PathResult) {
 		m.journalOn = false
 		if !m.concrete {
 			m.solver.EndPath()
+			if m.xsolv != nil {
+				m.xsolv.EndPath()
+			}
 		}
 		res.steps = m.steps
 		res.ndec = len(m.decisions)
@@ -759,6 +821,15 @@ func (m *Machine) runPath(w WorkItem) (res *PathResult) {
 	}()
 	if m.uncaughtPanic != nil {
 		m.panicViolation("goroutine: " + m.panicString(m.uncaughtPanic.v))
+	}
+	if res.outcome == "step-limit" || res.outcome == "decision-limit" || res.outcome == "deadlock" {
+		// candidate non-termination / hang: becomes a violation only if the native
+		// replay does not terminate either (otherwise the bound was too small: inconclusive)
+		lbl := "nontermination"
+		if res.outcome == "deadlock" {
+			lbl = "deadlock"
+		}
+		m.panicViolationLabel(lbl, res.outcome+": "+res.detail)
 	}
 	if res.outcome == "" {
 		res.outcome = "ok"
